@@ -98,6 +98,9 @@ type Chain struct {
 
 	EthNonce map[string]uint64
 	LzNonce  map[uint64]uint64
+	// SimOnly: DeliverTx runs the transaction as a node-local simulation instead (not recorded)
+	SimOnly   bool
+	Simulated int
 }
 
 func newApp(db dbm.DB, chainID string) *exocoreapp.ExocoreApp {
@@ -272,6 +275,25 @@ func (c *Chain) CheckCtx() sdk.Context {
 
 // DeliverTx delivers raw transaction bytes.
 func (c *Chain) DeliverTx(tx []byte) (res abci.ResponseDeliverTx) {
+	if c.SimOnly {
+		// a node-local simulation (what the tx simulation and gas estimation endpoints run): the
+		// transaction is executed against the check state and is not part of any block
+		c.Simulated++
+		func() {
+			defer func() {
+				if r := recover(); r != nil {
+					res = abci.ResponseDeliverTx{Code: 111222, Log: fmt.Sprintf("panic in simulation: %v", r)}
+				}
+			}()
+			gi, r, err := c.App.Simulate(tx)
+			if err != nil {
+				res = abci.ResponseDeliverTx{Code: 1, Log: err.Error(), GasUsed: int64(gi.GasUsed)}
+				return
+			}
+			res = abci.ResponseDeliverTx{Code: 0, Data: r.Data, Log: r.Log, GasUsed: int64(gi.GasUsed), GasWanted: int64(gi.GasWanted)}
+		}()
+		return res
+	}
 	c.guard("DeliverTx", func() { res = c.App.DeliverTx(abci.RequestDeliverTx{Tx: tx}) })
 	if c.cur != nil {
 		c.cur.Txs = append(c.cur.Txs, tx)
